@@ -303,6 +303,8 @@ class SymEval:
                     return Const({ast.Add: lambda: a.v + b.v, ast.Sub: lambda: a.v - b.v, ast.Mult: lambda: a.v * b.v}[type(e.op)]())
                 except Exception:
                     pass
+            if isinstance(e.op, ast.Add) and isinstance(a, Tup) and isinstance(b, Tup):
+                return Tup(list(a.items) + list(b.items))
             r = Unk(unparse(e), deps_of(a) | deps_of(b))
             r.binop = (type(e.op).__name__, a, b)
             return r
@@ -347,8 +349,10 @@ class SymEval:
                     for x, iv in zip(t.elts[s + 1:], v.items[len(v.items) - after:] if after else []):
                         self.bind(x, iv, p)
             else:
-                for x in t.elts:
-                    self.bind(x.value if isinstance(x, ast.Starred) else x, Unk(f"elem of {v!r}", deps_of(v)), p)
+                for i, x in enumerate(t.elts):
+                    u = Unk(f"elem of {v!r}", deps_of(v))
+                    u.slot = (i if not star else None, repr(v))      # which component of the unpacked value this is
+                    self.bind(x.value if isinstance(x, ast.Starred) else x, u, p)
         elif isinstance(t, ast.Starred):
             self.bind(t.value, v, p)
         elif isinstance(t, (ast.Attribute, ast.Subscript)):
@@ -372,7 +376,45 @@ class SymEval:
                 raise AnalysisError("symbolic evaluation: too many paths")
         return paths
 
+    def branch(self, test, p):
+        """(paths on which `test` holds, paths on which it does not), with short-circuit evaluation: the recorded path conditions
+        are the atoms of and/or/not combinations, so `if a and b` and `if a: if b` give the same conditions."""
+        if isinstance(test, ast.UnaryOp) and isinstance(test.op, ast.Not):
+            ts, fs = self.branch(test.operand, p)
+            return fs, ts
+        if isinstance(test, ast.BoolOp):
+            is_and = isinstance(test.op, ast.And)
+            live, done = [p], []
+            for v in test.values:
+                nxt = []
+                for q in live:
+                    ts, fs = self.branch(v, q)
+                    if is_and:
+                        nxt += ts
+                        done += fs
+                    else:
+                        nxt += fs
+                        done += ts
+                live = nxt
+            return (live, done) if is_and else (done, live)
+        t = self.ev(test, p)
+        if isinstance(t, Const):
+            return ([p], []) if t.v else ([], [p])
+        a, b = p, p.fork()
+        a.conds.append((unparse(test), True))
+        b.conds.append((unparse(test), False))
+        return [a], [b]
+
     def stmt(self, s, p):
+        if isinstance(s, ast.Assign) and len(s.targets) == 1 and isinstance(s.targets[0], ast.Name) and _boolean_typed(s.value):
+            # flag = <and/or/not over comparisons>: split the path here, the flag is a known constant on each side, so that a
+            # later `if flag:` contributes the same path conditions as testing the expression directly
+            ts, fs = self.branch(s.value, p)
+            for q in ts:
+                self.bind(s.targets[0], Const(True), q)
+            for q in fs:
+                self.bind(s.targets[0], Const(False), q)
+            return ts + fs
         if isinstance(s, ast.Assign):
             v = self.ev(s.value, p)
             for t in s.targets:
@@ -390,13 +432,8 @@ class SymEval:
             self.ev(s.value, p)
             return [p]
         if isinstance(s, ast.If):
-            t = self.ev(s.test, p)
-            if isinstance(t, Const):
-                return self.run_block(s.body if t.v else s.orelse, [p])
-            a, b = p, p.fork()
-            a.conds.append((unparse(s.test), True))
-            b.conds.append((unparse(s.test), False))
-            return self.run_block(s.body, [a]) + self.run_block(s.orelse, [b])
+            ts, fs = self.branch(s.test, p)
+            return self.run_block(s.body, ts) + self.run_block(s.orelse, fs)
         if isinstance(s, (ast.For, ast.AsyncFor)):
             it = self.ev(s.iter, p)
             if isinstance(it, Arr):
@@ -465,3 +502,12 @@ def events_of(paths, callee_pred):
             if callee_pred(e.callee):
                 out.append((p, e))
     return out
+
+
+def _boolean_typed(e):
+    """and/or/not combination whose every leaf is a comparison or a negation: its value is a bool, whatever the operands are."""
+    if isinstance(e, ast.BoolOp):
+        return all(_boolean_typed(v) or isinstance(v, ast.Compare) for v in e.values)
+    if isinstance(e, ast.UnaryOp) and isinstance(e.op, ast.Not):
+        return True
+    return False
